@@ -35,6 +35,10 @@ static bool gen_c11(uint64_t seed, const std::string &tier, uint64_t i, Plan &p)
     if (r.chance(0.2)) { static const std::vector<std::pair<std::string, std::string>> coll = {{"inhzhjwy", "bpulfcqf"}, {"atdmnzi", "mmymyam"}, {"ilarhwk", "rvhjbec"}, {"qymymfx", "odfdkdi"}, {"bhaondj", "zpvmbxo"}};
       auto pr = r.pick(coll); int u0 = 520 + (int)r.below(10);
       for (auto *nm : {&pr.first, &pr.second}) if (seen.insert("=" + *nm).second) { a += "=" + *nm + ":" + (nm == &pr.first ? "joe" : "bill") + ":" + std::to_string(u0++) + ":100:/home/" + (nm == &pr.first ? "joe" : "bill") + ":::\n"; simple_locs.push_back(*nm); } }
+    // two simple entries in the same hash table of the database, both with their home slot at its end: one is stored wrapped round to slot 0
+    if (r.chance(0.2)) { static const std::vector<std::pair<std::string, std::string>> wrap = {{"v131", "v210"}, {"v133", "v212"}, {"v132", "v213"}, {"v135", "v214"}, {"v134", "v215"}, {"v137", "v216"}};
+      auto pr = r.pick(wrap); int u0 = 540 + (int)r.below(10);
+      for (auto *nm : {&pr.first, &pr.second}) if (seen.insert("=" + *nm).second) { a += "=" + *nm + ":" + (nm == &pr.first ? "joe" : "bill") + ":" + std::to_string(u0++) + ":100:/home/" + (nm == &pr.first ? "joe" : "bill") + ":::\n"; simple_locs.push_back(*nm); simple_locs.push_back(*nm); } }
     if (r.chance(0.3)) a += "+:alias:7790:2108:/var/qmail/alias:-::\n";
     int bad = (int)r.below(14);
     if (bad == 0) a += "=broken\n"; else if (bad == 1) a += "=a:b:c\n"; else if (bad == 2) a += ":x:1:1:/:::\n";
